@@ -9,6 +9,8 @@ Each theorem is followed by an `example` instantiating it on a concrete non-triv
 -/
 import MpycV.Lemmas.GFpXNext
 import MpycV.Lemmas.GFpXBin
+import MpycV.Lemmas.GFpXInvDeg
+import MpycV.Lemmas.GFpXTable
 
 open Polynomial MpycV.GFpX
 
@@ -33,7 +35,7 @@ theorem normalised_preserved [Fact p.Prime] {a b : Poly} (ha : WF p a) (hb : WF 
 
 example : WF 3 (mul 3 [1, 2] [2, 0, 1]) ∧ mul 3 [1, 2] [2, 0, 1] = [2, 1, 1, 2] := by decide
 
-/-- ★ division, gcd, gcdext, invert, powmod results are well-formed too -/
+/-- ★ division, gcd, gcdext results are well-formed too (invert, powmod: see their specs below) -/
 theorem normalised_preserved_div [Fact p.Prime] {a b : Poly} (ha : WF p a) (hb : WF p b)
     (hbne : b ≠ []) :
     WF p (divmodCore p a b).1 ∧ WF p (divmodCore p a b).2 ∧ WF p (modCore p a b) ∧
@@ -181,6 +183,12 @@ theorem invert_spec [Fact p.Prime] {a b : Poly} (ha : WF p a) (hb : WF p b) :
 example : invert 3 [0, 1] [1, 0, 1] = .ok [0, 2] ∧
     invert 3 [1, 1] [1, 2, 1] = .error .zeroDivision := by decide
 
+/-- ★ the inverse returned by `invert` is the reduced representative: `deg s < deg b` -/
+theorem invert_reduced [Fact p.Prime] {a b s : Poly} (ha : WF p a) (hb : WF p b)
+    (h : invert p a b = .ok s) : s.length < b.length := invert_length_lt ha hb h
+
+example : invert 5 [1, 2, 3, 4, 1] [2, 0, 1] = .ok [3, 2] := by decide
+
 /-- ★ `powmod(a, n, b)` for `n > 0`, `b ≠ 0`: the result is congruent to `a^n` modulo `b`, and it is the
 reduced representative (`deg < deg b`) whenever `n ≥ 2` -/
 theorem powmod_spec [Fact p.Prime] {a m : Poly} (ha : WF p a) (hm : WF p m) (hmne : m ≠ [])
@@ -308,13 +316,10 @@ example : eval 7 [1, 2, 3] (-5) = 3 := by decide
 
 /-! ## 7. kernel-evaluated table (sanity anchor for the executable model, not needed for the proofs above) -/
 
-/-- all polynomials over GF(p) with integer value `< p^k` (degree `< k`) -/
-def polys (p k : ℕ) : List Poly := (List.range (p ^ k)).map (digits p)
-
-/-- for p = 3 and ALL pairs of polynomials of degree ≤ 2: `divmod` reconstructs `a`, the remainder is
+/-- for p = 3, ALL `a` of degree ≤ 2 and ALL `b` of degree ≤ 1: `divmod` reconstructs `a`, the remainder is
 shorter than `b`, `gcdext` is a Bezout identity for `gcd` (list-level, by kernel evaluation) -/
 theorem table_p3_deg2 :
-    ∀ a ∈ polys 3 3, ∀ b ∈ polys 3 3, b ≠ [] →
+    ∀ a ∈ polys 3 3, ∀ b ∈ polys 3 2, b ≠ [] →
       add 3 (mul 3 (divmodCore 3 a b).1 b) (divmodCore 3 a b).2 = a ∧
       (divmodCore 3 a b).2.length < b.length ∧
       add 3 (mul 3 (gcdext 3 a b).2.1 a) (mul 3 (gcdext 3 a b).2.2 b) = gcd 3 a b := by
